@@ -7,6 +7,7 @@
 import re
 
 from ural.ensure_protocol import ensure_protocol
+from ural.get_hostname import get_hostname
 from ural.patterns import DOMAIN_TEMPLATE, QUERY_VALUE_IN_URL_TEMPLATE
 
 from ural.utils import (
@@ -26,7 +27,7 @@ BASE_FACEBOOK_URL = "https://www.facebook.com"
 
 FACEBOOK_ID_RE = re.compile(r"^\d+$")
 FACEBOOK_FULL_ID_RE = re.compile(r"^\d+_\d+$")
-FACEBOOK_DOMAIN_RE = re.compile(r"(?:facebook\.[^.]+$|fb\.me$)", re.I)
+FACEBOOK_DOMAIN_RE = re.compile(r"(?:^|\.)(?:facebook\.[^.\s]+|fb\.me)\s*$", re.I)
 FACEBOOK_URL_RE = re.compile(
     DOMAIN_TEMPLATE % r"(?:[^.]+\.)*(?:facebook\.[^.]+|fb\.me)", re.I
 )
@@ -54,10 +55,9 @@ def is_facebook_url(url):
         bool: Whether given url is from Facebook.
 
     """
-    if isinstance(url, SplitResult):
-        return bool(re.search(FACEBOOK_DOMAIN_RE, url.hostname))
+    hostname = get_hostname(url)
 
-    return bool(re.match(FACEBOOK_URL_RE, url))
+    return hostname is not None and bool(re.search(FACEBOOK_DOMAIN_RE, hostname))
 
 
 def is_facebook_post_url(url):
